@@ -495,8 +495,9 @@ func (cs *ConsensusState) setProposal(proposal *types.Proposal) error {
 		return nil
 	}
 
-	// Verify POLRound, which must be -1 or between 0 and proposal.Round exclusive.
-	if (proposal.POLRound < 1) && ((proposal.POLRound > 0) || (proposal.POLRound > proposal.Round)) {
+	// Verify POLRound, which must be 0 (no POL round; rounds are 1-based) or
+	// between 1 and proposal.Round exclusive.
+	if proposal.POLRound > 0 && proposal.POLRound >= proposal.Round {
 		cs.Logger.Trace("Invalid proposal POLRound", "proposal.POLRound", proposal.POLRound, "proposal.Round", proposal.Round)
 		return ErrInvalidProposalPOLRound
 	}
